@@ -18,9 +18,14 @@
 (* matter (NoTrailingLiterals re-offers the trailing literals: the parse   *)
 (* position goes back, the search set does not).                           *)
 (*                                                                         *)
-(* Variant = "pinned"  the scan as written in gsap.go                      *)
-(* Variant = "forget"  the trailing positions that are re-offered are      *)
-(*                     removed from the search set again                   *)
+(* Variant = "forget"  gsap.go: the trailing positions that are re-offered *)
+(*                     are removed from the search set again               *)
+(* Variant = "keep"    the defect that was repaired (D17): they stay, and  *)
+(*                     a later position can hide an earlier match.  TLC    *)
+(*                     does not refute it for binary texts up to 11 bytes  *)
+(*                     and MinMatchLen <= 3 (the witness found by trace    *)
+(*                     validation has 93 bytes and MinMatchLen 4); the     *)
+(*                     invariant NoFuture separates the two variants.      *)
 (*                                                                         *)
 (* Properties checked on every emitted block (the C12 / C02 rules of the   *)
 (* ParserSM envelope, evaluated by the same operators that judge recorded  *)
@@ -119,7 +124,7 @@ DoParse ==
        IN /\ ev' = e1
           /\ st' = PEff(st, e1)
           /\ w' = newW
-          /\ bits' = IF Variant = "forget" /\ ntl THEN r.bits \ (r.lit .. e - 1) ELSE r.bits
+          /\ bits' = IF Variant # "keep" /\ ntl THEN r.bits \ (r.lit .. e - 1) ELSE r.bits
           /\ sorted' = cov
           /\ ops' = IF EmitOps THEN Append(ops, [op |-> "parse", flags |-> fl]) ELSE ops
     /\ UNCHANGED <<t, avail, cf>>
